@@ -112,3 +112,169 @@ Theorem C12_model_stage_scaling : forall w k hot cold extra, 0 <= k ->
   /\ Qh_of p' == k * Qh_of p /\ Qc_of p' == k * Qc_of p /\ Qr_of p' == k * Qr_of p.
 Proof. exact stage_scale_model. Qed.
 Print Assumptions C12_model_stage_scaling.
+
+(* ================================================================================================================
+   Zone renaming, stream order and zone order ON THE MODELS (model/ZoneTree.v, model/Cascade.v, model/Site.v).
+   Vocabulary: `istream` = what zone-tree construction reads of a stream (identity sid, zone label, name, hot/cold);
+   `model_synth root ss` = the synthesised zone tree (one `zobs` per zone: path below the root, identities in the hot / cold
+   collection); `rename_label f l` = label l with every path component c replaced by f c; `occurs ss c` = c is a component
+   of the label of some labelled stream of ss; `clean_name x` = x contains no "/", has no leading/trailing white space and is
+   not empty (so that the label cleaning of the code reads the new name back); `zone_corr f out out' z z'` = z' is the
+   counterpart of z (spelled out by C12_zone_correspondence_means).
+   What is NOT preserved by a renaming, and is therefore not claimed: the order in which zones are listed, the order/keys of
+   the entries inside a collection, and the number k of a generated unit-operation name O<k> -- they follow the sort order of
+   the label strings (C12_renaming_listing_order_refuted). *)
+From OP Require Import model.Stream model.Collection model.CascadeE2E model.ZoneTree model.Site
+  proofs.ZoneTreeSynth proofs.ZoneTreeFinal proofs.ZoneTreeTwin proofs.ZoneTreeOrder proofs.ComposeZonesCascade proofs.ComposeTwinCascade proofs.SiteOrder.
+From Coq Require Import String.
+
+(* z' is the counterpart of z: EITHER both are zones created for labels (zones with subzones) or the roots, and the path of
+   z' is the path of z mapped component-wise by f, OR both are generated unit-operation leaves and the parent path of z' is
+   the mapped parent path of z; in both cases they hold the same stream identities, hot and cold separately. *)
+Theorem C12_zone_correspondence_means : forall f out out' z z', zone_corr f out out' z z' <->
+  (((is_leaf out z = false \/ zo_path z = []) /\ (is_leaf out' z' = false \/ zo_path z' = []) /\ zo_path z' = map f (zo_path z))
+   \/ (is_leaf out z = true /\ zo_path z <> [] /\ is_leaf out' z' = true /\ zo_path z' <> []
+       /\ removelast (zo_path z') = map f (removelast (zo_path z))))
+  /\ Permutation (map fst (zo_hot z)) (map fst (zo_hot z')) /\ Permutation (map fst (zo_cold z)) (map fst (zo_cold z')).
+Proof. exact zone_corr_means. Qed.
+Print Assumptions C12_zone_correspondence_means.
+
+(* ZONE RENAMING (and stream order at the same time): rename the zone-name components by f -- injective on the components
+   that occur, onto clean names -- rename the site, give the streams in any order: every zone of the original tree has a
+   counterpart in the new tree and the new tree has no other zones. *)
+Theorem C12_zone_renaming_tree : forall root root' ss ss' f out out',
+  NoDup (map sid ss) -> Permutation ss' (map (rename_is f) ss) ->
+  (forall c, occurs ss c -> clean_name (f c)) -> (forall a b, occurs ss a -> occurs ss b -> f a = f b -> a = b) ->
+  model_synth root ss = Ok out -> model_synth root' ss' = Ok out' ->
+  (forall z, In z out -> exists z', In z' out' /\ zone_corr f out out' z z')
+  /\ (forall z', In z' out' -> exists z, In z out /\ zone_corr f out out' z z').
+Proof. exact rename_reorder_tree. Qed.
+Print Assumptions C12_zone_renaming_tree.
+
+(* the label cleaning reads a renamed label back as the renamed components (this is where `clean_name` is used) *)
+Theorem C12_renamed_label_is_read_back : forall f l, (forall c, In c (split_label l) -> clean_name (f c)) ->
+  nonempty (rename_label f l) = nonempty l /\ (nonempty l = true -> split_label (rename_label f l) = map f (split_label l)).
+Proof. exact rename_label_ok. Qed.
+Print Assumptions C12_renamed_label_is_read_back.
+
+(* a plain renaming meets the side conditions: A -> Plant1, B -> Unit 7 on the labels "A", "A/B", "B", "" *)
+Theorem C12_renaming_example :
+  map (fun s => slabel (rename_is ex_f s)) ex_ss = ["Plant1"; "Plant1/Unit 7"; "Unit 7"; ""]%string
+  /\ (forall c, occurs ex_ss c -> clean_name (ex_f c))
+  /\ (forall a b, occurs ex_ss a -> occurs ex_ss b -> ex_f a = ex_f b -> a = b).
+Proof. exact ex_rename_conditions. Qed.
+Print Assumptions C12_renaming_example.
+
+(* REFUTED as a literal image: with A -> Z, B -> Y the zones are listed in another order (sorted label strings) *)
+Theorem C12_renaming_listing_order_refuted :
+  zpaths (model_synth "Site" ex_ss) = [[]; ["A"]; ["A"; "B"]; ["B"]; ["A"; "O1"]; ["A"; "B"; "O1"]; ["B"; "O1"]]%string
+  /\ zpaths (model_synth "Site" (map (rename_is ex_f2) ex_ss)) = [[]; ["Y"]; ["Z"]; ["Z"; "Y"]; ["Y"; "O1"]; ["Z"; "O1"]; ["Z"; "Y"; "O1"]]%string
+  /\ zpaths (model_synth "Site" (map (rename_is ex_f2) ex_ss)) <> map (map ex_f2) (zpaths (model_synth "Site" ex_ss)).
+Proof. exact rename_listing_order_refuted. Qed.
+Print Assumptions C12_renaming_listing_order_refuted.
+
+(* REFUTED likewise: the NUMBER k of a generated name O<k> when a renamed component looks like a generated name -- labels "A"
+   and "A/O1": the stream labelled "A" gets A/O2 (O1 is taken by a label); after O1 -> X it gets A/O1.  Its counterpart in
+   the sense of zone_corr is that leaf (same parent, same stream), which is why the theorems above need no side condition
+   about generated names.
+   OPEN (not attempted): if f additionally fixes generated names (f c = O<k> iff c = O<k> on the components that occur), no two
+   labelled streams share (label, name), and streams with the same label components have the same label string, then every
+   stream's generated leaf keeps its number: asg'(sid s) = map f (comps s) ++ [O<k>] whenever asg(sid s) = comps s ++ [O<k>].
+   The ingredients are identified (k of the j-th stream of a label group = j-th number whose name is not a label-created child
+   of the group's zone) but the invariant of the counter loop across two different interleavings is not formalised. *)
+Theorem C12_renaming_generated_number_refuted :
+  leaf_path_of (model_synth "Site" ex_ss3) 0 = [["A"; "O2"]]%string
+  /\ leaf_path_of (model_synth "Site" (map (rename_is ex_f3) ex_ss3)) 0 = [["A"; "O1"]]%string
+  /\ leaf_path_of (model_synth "Site" ex_ss3) 1 = [["A"; "O1"; "O1"]]%string
+  /\ leaf_path_of (model_synth "Site" (map (rename_is ex_f3) ex_ss3)) 1 = [["A"; "X"; "O1"]]%string.
+Proof. exact rename_generated_number_refuted. Qed.
+Print Assumptions C12_renaming_generated_number_refuted.
+
+(* ... CARRIED TO THE NUMBERS.  `zin` = input stream with identity, label, name and numeric data; the twin problem keeps
+   identity and data of every stream, has the labels renamed by f, may rename the streams themselves and the site, and
+   lists the streams in any order.  Then corresponding zones have the IDENTICAL problem table (every column) for every window
+   and every set of extra grid contributors, hence identical targets -- with no Robust / lattice hypothesis. *)
+Theorem C12_zone_renaming_tables : forall xs xs' f r,
+  NoDup (map z_id xs) -> Permutation xs' (map r xs) ->
+  (forall x, In x xs -> z_id (r x) = z_id x) -> (forall x, In x xs -> z_data (r x) = z_data x) ->
+  (forall x, In x xs -> z_label (r x) = rename_label f (z_label x)) ->
+  forall root root' out out',
+  (forall c, occurs (map to_istream xs) c -> clean_name (f c)) ->
+  (forall a b, occurs (map to_istream xs) a -> occurs (map to_istream xs) b -> f a = f b -> a = b) ->
+  model_synth root (map to_istream xs) = Ok out -> model_synth root' (map to_istream xs') = Ok out' ->
+  (forall z, In z out -> exists z', In z' out' /\ zone_corr f out out' z z' /\ forall w extra,
+     stage_model w (zone_hot_views xs z) (zone_cold_views xs z) extra = stage_model w (zone_hot_views xs' z') (zone_cold_views xs' z') extra)
+  /\ (forall z', In z' out' -> exists z, In z out /\ zone_corr f out out' z z' /\ forall w extra,
+     stage_model w (zone_hot_views xs z) (zone_cold_views xs z) extra = stage_model w (zone_hot_views xs' z') (zone_cold_views xs' z') extra).
+Proof. exact twin_zone_tables. Qed.
+Print Assumptions C12_zone_renaming_tables.
+
+(* STREAM ORDER, without any hypothesis on names: the same zones (same paths for the zones created for labels, for every
+   stream a generated leaf below the same parent) holding the same identities, and identical tables zone by zone. *)
+Theorem C12_stream_order_tree : forall root ss ss' out out',
+  NoDup (map sid ss) -> Permutation ss' ss -> model_synth root ss = Ok out -> model_synth root ss' = Ok out' ->
+  (forall z, In z out -> exists z', In z' out' /\ zone_corr (fun c => c) out out' z z')
+  /\ (forall z', In z' out' -> exists z, In z out /\ zone_corr (fun c => c) out out' z z').
+Proof. exact reorder_tree. Qed.
+Print Assumptions C12_stream_order_tree.
+Theorem C12_stream_order_tables : forall root xs xs' out out', NoDup (map z_id xs) -> Permutation xs' xs ->
+  model_synth root (map to_istream xs) = Ok out -> model_synth root (map to_istream xs') = Ok out' ->
+  forall z, In z out -> exists z', In z' out' /\ zone_corr (fun c => c) out out' z z' /\ forall w extra,
+    stage_model w (zone_hot_views xs z) (zone_cold_views xs z) extra = stage_model w (zone_hot_views xs' z') (zone_cold_views xs' z') extra.
+Proof. exact reorder_zone_tables. Qed.
+Print Assumptions C12_stream_order_tables.
+
+(* STREAM ORDER, literally: the code sorts by (zone label, name) before it generates unit-operation names and by name before
+   placement; if no two labelled streams share BOTH label and name, the whole prepared tree -- zone listing, generated names
+   O<k>, entry order, keys -- is the same value for every order of the input.  The hypothesis is on the input: the code does
+   not create it. *)
+Theorem C12_stream_order_literal : forall root ss ss',
+  NoDup (map sid ss) -> NoDup (map (fun s => (slabel s, sname s)) (filter labelled ss)) -> Permutation ss ss' ->
+  model_synth root ss = model_synth root ss'.
+Proof. exact model_synth_perm. Qed.
+Print Assumptions C12_stream_order_literal.
+Theorem C12_stream_order_literal_distinct_names : forall root ss ss',
+  NoDup (map sid ss) -> NoDup (map sname (filter labelled ss)) -> Permutation ss ss' -> model_synth root ss = model_synth root ss'.
+Proof. exact model_synth_perm_names. Qed.
+Print Assumptions C12_stream_order_literal_distinct_names.
+(* REFUTED without it: two streams of zone "A" both named "S", one hot (identity 0) one cold (identity 1); the input order
+   decides which of them receives the unit operation A/O1 and which A/O2 (zone A itself holds both either way).
+   Replayed on the implementation: same swap. *)
+Theorem C12_same_key_order_refuted :
+  model_synth "Site" [dup_a; dup_b] <> model_synth "Site" [dup_b; dup_a]
+  /\ zone_ids (model_synth "Site" [dup_a; dup_b]) ["A"; "O1"]%string = ([0%nat], []) /\ zone_ids (model_synth "Site" [dup_a; dup_b]) ["A"; "O2"]%string = ([], [1%nat])
+  /\ zone_ids (model_synth "Site" [dup_b; dup_a]) ["A"; "O1"]%string = ([], [1%nat]) /\ zone_ids (model_synth "Site" [dup_b; dup_a]) ["A"; "O2"]%string = ([0%nat], [])
+  /\ zone_ids (model_synth "Site" [dup_a; dup_b]) ["A"%string] = zone_ids (model_synth "Site" [dup_b; dup_a]) ["A"%string].
+Proof. exact same_key_order_refuted. Qed.
+Print Assumptions C12_same_key_order_refuted.
+
+(* ZONE ORDER at site level: each target of the total-process record is a sum over the zones' records and each utility duty a
+   sum of the zones' duty lists; both are the same reduced rationals for every order of the zones, *)
+Theorem C12_zone_order_target_sums : forall (f : rec -> Q) zones zones', Permutation zones zones' ->
+  qsum (map f zones) = qsum (map f zones').
+Proof. exact zone_sum_perm. Qed.
+Print Assumptions C12_zone_order_target_sums.
+Theorem C12_zone_order_utility_sums : forall zones zones', Permutation zones zones' ->
+  sum_lists (map r_hu zones) = sum_lists (map r_hu zones') /\ sum_lists (map r_cu zones) = sum_lists (map r_cu zones').
+Proof. exact zone_utility_sums_perm. Qed.
+Print Assumptions C12_zone_order_utility_sums.
+(* so the C09 verdict on the reported site records does not depend on the order in which the zones are listed. *)
+Theorem C12_zone_order_site_predicate : forall eps slack xs zones zones' di tz ts, Permutation zones zones' ->
+  c09_b eps slack xs zones di tz ts = c09_b eps slack xs zones' di tz ts.
+Proof. exact c09_b_zone_order. Qed.
+Print Assumptions C12_zone_order_site_predicate.
+(* UTILITY ORDER in the total-site cascade: H_NET_UT, Qh and Qc of the site are identical for every order of the hot and of
+   the cold utility pseudo-streams -- on a given grid, and on the grid built from their own end points. *)
+Theorem C12_site_cascade_utility_order : forall w hu hu' cu cu' g, Permutation hu hu' -> Permutation cu cu' ->
+  site_hnet_ut w hu cu g = site_hnet_ut w hu' cu' g.
+Proof. exact site_hnet_ut_perm. Qed.
+Print Assumptions C12_site_cascade_utility_order.
+Theorem C12_site_targets_utility_order : forall w hu hu' cu cu' g, Permutation hu hu' -> Permutation cu cu' ->
+  site_Qh w hu cu g = site_Qh w hu' cu' g /\ site_Qc w hu cu g = site_Qc w hu' cu' g.
+Proof. exact site_targets_perm. Qed.
+Print Assumptions C12_site_targets_utility_order.
+Theorem C12_site_cascade_utility_order_own_grid : forall w hu hu' cu cu' extra extra',
+  Permutation hu hu' -> Permutation cu cu' -> Permutation extra extra' ->
+  site_hnet_ut w hu cu (grid_of (endpoints (hu ++ cu ++ extra))) = site_hnet_ut w hu' cu' (grid_of (endpoints (hu' ++ cu' ++ extra'))).
+Proof. exact site_targets_perm_grid. Qed.
+Print Assumptions C12_site_cascade_utility_order_own_grid.
